@@ -301,12 +301,76 @@ fn sweep(ctx: &Ctx, res: &mut PartResult, which: &str) {
     }
 }
 
+/// Two metrics whose names differ exactly by the unit's suffix (`x` and `x_seconds`), both described with that unit, on
+/// one recorder, with unit suffixes on and off, for every unit and the three kinds: the rendering is well-formed (one
+/// TYPE line per family, samples under their own family) and holds two separate families for the two metrics.
+fn unit_pairs(res: &mut PartResult) {
+    res.engine = "E3 pairs of names that differ by the unit suffix x units x kinds x suffix option through render() and the strict parser".into();
+    let mut states = vseq::States::new();
+    for u in UNITS.iter().flatten() {
+        let sfxs: Vec<String> = if *u == Unit::Percent { vec!["ratio".into(), u.as_str().to_string()] } else { vec![u.as_str().to_string()] };
+        for sfx in sfxs {
+            for enable in [true, false] {
+                for kind in [Kind::Counter, Kind::Gauge, Kind::Summary, Kind::Histogram] {
+                    res.executions += 1;
+                    res.transitions += 1;
+                    let mut b = PrometheusBuilder::new().set_enable_unit_suffix(enable);
+                    if matches!(kind, Kind::Histogram) {
+                        b = b.set_buckets(&[1.0, 5.0]).unwrap();
+                    }
+                    let rec = b.build_recorder();
+                    let names = ["x".to_string(), format!("x_{}", sfx)];
+                    for (i, n) in names.iter().enumerate() {
+                        let kn: KeyName = n.clone().into();
+                        let key = Key::from_name(n.clone());
+                        match kind {
+                            Kind::Counter => {
+                                rec.describe_counter(kn, Some(*u), "d".into());
+                                rec.register_counter(&key, &META).increment(3 + i as u64);
+                            }
+                            Kind::Gauge => {
+                                rec.describe_gauge(kn, Some(*u), "d".into());
+                                rec.register_gauge(&key, &META).set(2.5 + i as f64);
+                            }
+                            _ => {
+                                rec.describe_histogram(kn, Some(*u), "d".into());
+                                rec.register_histogram(&key, &META).record(2.0 + i as f64);
+                            }
+                        }
+                    }
+                    let text = rec.handle().render();
+                    let cfg = json!({"unit_pair": [u.as_str(), sfx, enable, format!("{:?}", kind)]});
+                    match promtext::parse(&text) {
+                        Err(e) => res.violation("malformed-exposition-line", format!("metrics {:?} ({:?}), both described with unit {:?}, unit suffixes {}: {} ;; text {:?}", names, kind, u, if enable { "on" } else { "off" }, e, text.chars().take(500).collect::<String>()), cfg),
+                        Ok(fams) => {
+                            states.add(&(fams.len(), enable));
+                            let mut fnames: Vec<&str> = fams.iter().map(|f| f.name.as_str()).collect();
+                            fnames.sort();
+                            fnames.dedup();
+                            if fams.len() != 2 || fnames.len() != 2 {
+                                res.violation("unit-suffix-family-mismatch", format!("metrics {:?} ({:?}), both described with unit {:?}, unit suffixes {}: the rendering holds the families {:?} (expected two separate ones)", names, kind, u, if enable { "on" } else { "off" }, fams.iter().map(|f| f.name.clone()).collect::<Vec<_>>()), cfg);
+                            }
+                        }
+                    }
+                }
+            }
+        }
+    }
+    res.states = states.len();
+    res.distinct_outcomes = states.len();
+    res.sample(json!({"names": ["x", "x_seconds"], "unit": "seconds", "suffixes": "on", "expected": "two families, one TYPE line each"}));
+}
+
 fn parts(ctx: &Ctx) -> Vec<PartSpec> {
-    ["name", "label_key", "label_val", "global_val", "global_key", "desc", "pairs", "units", "long"].iter().map(|w| PartSpec::new(&format!("e3-{}", w), json!({"which": w})).budget(if ctx.quick() { 150.0 } else { 2400.0 })).collect()
+    ["name", "label_key", "label_val", "global_val", "global_key", "desc", "pairs", "units", "long", "unitpairs"].iter().map(|w| PartSpec::new(&format!("e3-{}", w), json!({"which": w})).budget(if ctx.quick() { 150.0 } else { 2400.0 })).collect()
 }
 
 fn run(ctx: &Ctx, spec: &PartSpec) -> PartResult {
     let mut res = PartResult::new(&spec.name, "");
+    if spec.arg["which"].as_str() == Some("unitpairs") {
+        unit_pairs(&mut res);
+        return res;
+    }
     sweep(ctx, &mut res, spec.arg["which"].as_str().unwrap_or("name"));
     res
 }
@@ -315,7 +379,7 @@ fn main() {
     driver::main(CheckDef {
         prop: "C08",
         level: "model_checking",
-        rule: "every string of length <= 3 (thorough 4) over an 18-character nasty alphabet {a n Z 0 _ : \" \\ LF CR { } , = # space é NUL} in each role (metric name, label key, label value, global label name, global label value, description; names/keys non-empty), every string of length <= 7 (9) over the escaper's four character classes {LF \" \\ n} for label values and descriptions, pairs of roles, and all 17 Unit values x unit-suffix on/off x awkward names; each for counter/gauge/summary/histogram on a fresh recorder with a bystander family; render() output must parse under a strict grammar (line classes, name grammars, escapes, value forms, one TYPE before samples, allowed suffixes) and come back with exactly the registered families, samples and label counts; distinct = distinct (family name, type, sample-name set); role `long`: runs of one symbol (a, quote, backslash, LF, é) of length c-3..c+3 for c in {64,128,256,512,1024,4096} (thorough: up to 65536) followed by a tail of symbols that need escaping, as label value, global label value, description, name and label key",
+        rule: "every string of length <= 3 (thorough 4) over an 18-character nasty alphabet {a n Z 0 _ : \" \\ LF CR { } , = # space é NUL} in each role (metric name, label key, label value, global label name, global label value, description; names/keys non-empty), every string of length <= 7 (9) over the escaper's four character classes {LF \" \\ n} for label values and descriptions, pairs of roles, and all 17 Unit values x unit-suffix on/off x awkward names; each for counter/gauge/summary/histogram on a fresh recorder with a bystander family; render() output must parse under a strict grammar (line classes, name grammars, escapes, value forms, one TYPE before samples, allowed suffixes) and come back with exactly the registered families, samples and label counts; distinct = distinct (family name, type, sample-name set); role `long`: runs of one symbol (a, quote, backslash, LF, é) of length c-3..c+3 for c in {64,128,256,512,1024,4096} (thorough: up to 65536) followed by a tail of symbols that need escaping, as label value, global label value, description, name and label key; pairs of metrics whose names differ exactly by the unit's suffix, both described with that unit, x every unit x 4 kinds x unit suffixes on/off: well-formed, two separate families",
         assumptions: &["the C07 precondition: sanitised names distinct, label names not le/quantile (the alphabets cannot produce a collision)"],
         parts,
         run,
